@@ -235,7 +235,8 @@ def check(ctx):
                 cond = e["cond"]
                 ctext = expr_text(cond) if cond.get("k") != "letcond" else "let %s = %s" % ("..", expr_text(cond["expr"]))
                 lits = ",".join(sorted(set(l for l in (lit_text(x) for x in walk(cond["expr"] if cond.get("k") == "letcond" else cond)) if l is not None)))
-                closed = (cond.get("k") == "macro" and cond["name"] == "matches") or bool(re.search(r'starts_with\("types\."\)', ctext))
+                from srclib import literal_set_guard
+                closed = (cond.get("k") == "macro" and cond["name"] == "matches") or literal_set_guard(S, cond) is not None or bool(re.search(r'starts_with\("types\."\)', ctext))
                 rets = [x for x in walk_block(e["then"]) if x.get("k") == "return" and x.get("expr") is not None]
                 last = e["then"][-1] if e["then"] else None
                 tail = [last["e"]] if last is not None and last.get("k") == "expr" and not last.get("semi") and not (last["e"].get("k") == "if" and last["e"].get("else") is None) else []
@@ -252,7 +253,7 @@ def check(ctx):
                             # nested closed guard (e.g. inside the `[]` branch: primitives)
                             inner_closed = False
                             for x in walk_block(e["then"]):
-                                if x.get("k") == "if" and x["cond"].get("k") == "macro" and x["cond"]["name"] == "matches":
+                                if x.get("k") == "if" and ((x["cond"].get("k") == "macro" and x["cond"]["name"] == "matches") or literal_set_guard(S, x["cond"]) is not None):
                                     if any(y is v or (y.get("k") == "return" and y.get("expr") is v) for y in walk_block(x["then"])):
                                         inner_closed = True
                             if inner_closed:
